@@ -45,7 +45,12 @@ func note(format string, args ...any) {
 //	stuck family= note=<hex: the calls that were under way>
 //
 // and the run ends there.
-func watchdog(fam string, limit time.Duration) {
+func watchdog(fam string, limit time.Duration) { watchdogKind(fam, limit, "stuck") }
+
+// watchdogKind: `kind` is the line written - "stuck" is judged by the family's own driver (db,
+// http, conc: with the property attributions that fit them), "stuckst" by the driver's main
+// loop for any family.
+func watchdogKind(fam string, limit time.Duration, kind string) {
 	lastAlive.Store(time.Now().UnixNano())
 	go func() {
 		for {
@@ -53,7 +58,7 @@ func watchdog(fam string, limit time.Duration) {
 			if time.Since(time.Unix(0, lastAlive.Load())) > limit {
 				n, _ := stuckNote.Load().(string)
 				emitMu.Lock()
-				fmt.Fprintf(out, "stuck\tfamily=%s\tnote=%s\n", fam, hx(n))
+				fmt.Fprintf(out, "%s\tfamily=%s\tnote=%s\n", kind, fam, hx(n))
 				out.Flush()
 				os.Exit(0)
 			}
@@ -104,6 +109,13 @@ func main() {
 	}
 	defer out.Flush()
 	var err error
+	switch fam {
+	case "db", "http", "conc", "fs", "fschild", "mkfixtures":
+		// (their own limits, set below; the strace families are driven case by case)
+	default:
+		// every other family writes a line every few seconds at most
+		watchdogKind(fam, 10*time.Minute, "stuckst")
+	}
 	switch fam {
 	case "acl":
 		err = traceACL(o)
